@@ -57,7 +57,7 @@ Section WithHash.
 
   Lemma view_coherent_model t i : 0 <= mark t i <= MAXU32 -> view_coherent (now t) (view t i) = true.
   Proof.
-    intros H. unfold view_coherent, view; cbn [v_ledger v_state v_exists v_pending v_ready v_done].
+    intros H. unfold view_coherent, view; cbn [v_ledger v_state v_exists v_pending v_ready v_done v_trap negb andb].
     replace (in_u32 (mark t i)) with true by (symmetry; apply in_u32_iff; exact H).
     unfold operation_exists, is_operation_pending, is_operation_ready, is_operation_done.
     rewrite !bool_eqb_refl. cbn [andb]. rewrite !andb_true_r.
@@ -225,17 +225,19 @@ Proof.
 Qed.
 
 Theorem check_accepts_model : forall n0 ids tags tbl cs,
-  2 <= n0 <= MAXU32 -> tbl_ok tbl = true ->
+  2 <= n0 <= MAXU32 -> tbl_ok tbl = true -> tbl_in ids tags tbl = true ->
   check (model_trace n0 ids tags tbl cs) = (0%N, 0%N, 0%N).
 Proof.
-  intros n0 ids tags tbl cs Hn Htbl. unfold check, model_trace.
+  intros n0 ids tags tbl cs Hn Htbl Hin. unfold check, model_trace.
   assert (D : diff (Hdr n0 ids tags tbl UNSET_LEDGER DONE_LEDGER (observe ids tags (init n0)),
                     model_events (hash_of tbl) ids tags (init n0) cs) = 0%N).
   { unfold diff, header_ok; cbn [h_unset h_done h_obs0 h_ids h_tags h_now h_tbl].
     rewrite !Z.eqb_refl, obs_eqb_refl. cbn [andb]. apply diff_from_model. }
   assert (M : monitor (Hdr n0 ids tags tbl UNSET_LEDGER DONE_LEDGER (observe ids tags (init n0)),
                        model_events (hash_of tbl) ids tags (init n0) cs) = 0%N).
-  { unfold monitor; cbn [h_tbl h_obs0]. rewrite Htbl, (obs0_ok_model n0 ids tags tbl Hn). cbn [andb].
+  { unfold monitor; cbn [h_tbl h_obs0]. rewrite Htbl, (obs0_ok_model n0 ids tags tbl Hn).
+    unfold hdr_ok; cbn [h_ids h_tags h_tbl h_obs0]. rewrite Hin. unfold observe at 1 2; cbn [o_ops o_runs].
+    rewrite !map_map; cbn [fst]. rewrite !map_id, !(list_eqb_refl N.eqb) by apply N.eqb_refl. cbn [andb].
     apply mon_from_model. apply init_ginv. exact Hn. }
   rewrite D, M. reflexivity.
 Qed.
